@@ -44,11 +44,21 @@ class Case:
     tag: str
     nontrivial: bool = True
     cmp: str = "eq"      # "eq": results equal; "member": implementation result is one of the '|'-separated spec results
+    margs: list = None   # arguments for the Coq side when they differ from the implementation's
+
+
+NAMES = {}
 
 
 def agree(case, impl: str, model: str) -> bool:
     if case.cmp == "member":
         return impl in model.split("|")
+    if case.cmp.startswith("names:"):
+        # model: ids of the registry entries; implementation: sorted set of their (short) names
+        col = 0 if case.cmp == "names:name" else 1
+        ids = [int(x) for x in model.split(",")] if model else []
+        expect = sorted({NAMES["bank_names"][i][col] for i in ids})
+        return json.loads(impl) == expect
     return impl == model
 
 
@@ -450,6 +460,205 @@ def c11_streams(ctx):
 
 
 # ------------------------------------------------------------------------------------------------
+# C18
+
+def jenc(x) -> str:
+    if x is None:
+        return "n"
+    if x is True:
+        return "t"
+    if x is False:
+        return "f"
+    if isinstance(x, int):
+        return "i" + str(x)
+    if isinstance(x, str):
+        return "s" + enc(x)
+    if isinstance(x, list):
+        return " ".join(["a" + str(len(x))] + [jenc(v) for v in x])
+    if isinstance(x, dict):
+        out = ["o" + str(len(x))]
+        for k, v in x.items():
+            out += [enc(k), jenc(v)]
+        return " ".join(out)
+    raise TypeError(type(x).__name__)
+
+
+KEYS = ["a", "b", "c", "positions", "DE", "bank_code", "x y", "", "ä"]
+
+
+def rand_scalar(rng):
+    return rng.choice([None, True, False, 0, 1, -7, 34, "", "x", "8!n10!n", [0, 8], [], ["bank_code"], [1, [2]]])
+
+
+def rand_dict(rng, depth=3, width=4):
+    d = {}
+    for k in rng.sample(KEYS, rng.randrange(0, width + 1)):
+        if depth > 0 and rng.random() < 0.45:
+            d[k] = rand_dict(rng, depth - 1, width)
+        else:
+            d[k] = rand_scalar(rng)
+    return d
+
+
+def rand_v2(rng):
+    src, dst = rng.choice([("bank_codes", "bank_code"), ("codes", "bic"), ("xs", "name")])
+    entries = []
+    for _ in range(rng.randrange(0, 5)):
+        en = {"country_code": rng.choice(["DK", "DE"]), "bic": rng.choice(["", "NDEADKKK", None]),
+              "name": rng.choice(["N", "ÆØ bank"]), src: [str(rng.randrange(10000)).zfill(4) for _ in range(rng.randrange(0, 4))]}
+        if rng.random() < 0.4:
+            en["primary"] = rng.choice([True, False])
+        if rng.random() < 0.3:
+            en[dst] = "preset"
+        if rng.random() < 0.2:
+            items = list(en.items())
+            rng.shuffle(items)
+            en = dict(items)
+        entries.append(en)
+    return {"entries": entries, "expand_from": src, "expand_into": dst}
+
+
+def registry_case(files, tag):
+    """files: list of (file name, document).  The model gets them in sorted-name order with the v2 flag."""
+    iargs = []
+    for n, doc in files:
+        iargs += [enc(n), jenc(doc)]
+    margs = []
+    for n, doc in sorted((f for f in files if f[0].endswith(".json")), key=lambda f: f[0]):
+        margs += ["1" if n[:-len(".json")].endswith("v2") else "0", jenc(doc)]
+    return Case("corr", "registry_get", iargs, tag, True, "eq", margs)
+
+
+def c18_streams(ctx):
+    import glob
+    import json as _json
+    rng = ctx.rng
+    n = 300 if ctx.quick else 6000
+    for _ in range(n):
+        l, r = rand_dict(rng), rand_dict(rng)
+        yield Case("corr", "merge_dicts", [jenc(l), jenc(r)], "merge-random", True)
+    for _ in range(n // 6):
+        yield Case("corr", "parse_v2", [jenc(rand_v2(rng))], "parse_v2-random", True)
+    for doc in ({}, {"entries": []}, {"entries": [], "expand_from": "a"}, {"entries": [{"a": 1}], "expand_from": "b", "expand_into": "c"},
+                {"entries": [{"b": 5}], "expand_from": "b", "expand_into": "c"}, [], "x"):
+        yield Case("corr", "parse_v2", [jenc(doc)], "parse_v2-malformed", True)
+    # registry.get on scratch directories: dict registries with overlays, list registries with v2 files
+    names = ["generated.json", "overwrite.json", "a.json", "zz_user.json", "Overlay.json", "00.json", "b.v2.json", "notes.txt"]
+    for _ in range(40 if ctx.quick else 600):
+        k = rng.randrange(1, 4)
+        files = [(nm, rand_dict(rng)) for nm in rng.sample([x for x in names if "v2" not in x], k)]
+        yield registry_case(files, "get-dicts")
+    for _ in range(30 if ctx.quick else 400):
+        files = []
+        for nm in rng.sample(names, rng.randrange(1, 4)):
+            if nm.endswith("v2.json"):
+                files.append((nm, rand_v2(rng)))
+            else:
+                files.append((nm, [rand_dict(rng, 1) for _ in range(rng.randrange(0, 3))]))
+        yield registry_case(files, "get-lists")
+    # the real registries of the tree: effective data = model of get on the raw files
+    repo = os.environ.get("VERIF_REPO", "/repo")
+    for reg in ("iban", "bank"):
+        files = []
+        for path in glob.glob(os.path.join(repo, "schwifty", reg + "_registry", "*")):
+            if path.endswith(".json"):
+                files.append((os.path.basename(path), _json.load(open(path, encoding="utf-8"))))
+        if reg == "bank" and ctx.quick:
+            # quick: a third of the bank files (all in thorough); always the v2 file
+            keep = [f for f in files if "v2" in f[0]] + rng.sample([f for f in files if "v2" not in f[0]], 12)
+            files = keep
+        yield registry_case(files, "get-real-" + reg)
+        # with a user overlay that renames nothing and adds one country / one bank
+        if reg == "iban":
+            over = {"DE": {"bban_length": 18, "positions": {"branch_code": [4, 8]}}, "ZZ": {"bban_spec": "4!n", "bban_length": 4,
+                    "iban_spec": "ZZ2!n4!n", "iban_length": 8}}
+            yield registry_case(files + [("zz_user_overlay.json", over)], "get-real-iban-overlay")
+
+
+# ------------------------------------------------------------------------------------------------
+# C12 / C17
+
+FILL = {"n": "0", "a": "A", "c": "0", "e": " "}
+
+
+def bban_around(ctx, cc, code):
+    """A structure-conforming BBAN of country cc carrying `code` in its bank-identifying field (None if it does not fit)."""
+    row = ctx.facts["iban_rows"].get(cc)
+    if row is None or not row.get("positions"):
+        return None
+    kinds = "".join(k * n for n, _b, k in parse_structure(row["bban_spec"]))
+    b = [ctx.rng.choice(KINDS[k]) if k != "e" else " " for k in kinds]
+    lookup = row.get("lookup") or ["bank_code"]
+    pos = 0
+    for comp in lookup:
+        s, e_ = row["positions"].get(comp, [0, 0])
+        piece = code[pos:pos + (e_ - s)]
+        pos += e_ - s
+        if len(piece) != e_ - s:
+            return None
+        b[s:e_] = list(piece)
+    if pos != len(code):
+        return None
+    return "".join(b)
+
+
+def c12_keys(ctx):
+    banks = ctx.facts["banks"]
+    keys = sorted({(cc, code) for cc, code, _bic in banks if cc and code})
+    bics = sorted({bic for _cc, _code, bic in banks if bic})
+    return keys, bics
+
+
+def c12_streams(ctx):
+    rng = ctx.rng
+    NAMES["bank_names"] = ctx.facts["bank_names"]
+    keys, bics = c12_keys(ctx)
+    ks = keys if not ctx.quick else rng.sample(keys, 500)
+    for cc, code in ks:
+        yield Case("corr", "candidates", [enc(cc), enc(code)], "candidates", True)
+        yield Case("corr", "from_bank_code", [enc(cc), enc(code)], "from_bank_code", True)
+    # unlisted pairs
+    for _ in range(100 if ctx.quick else 1500):
+        cc, code = rng.choice(keys)
+        mut = rng.choice([code[:-1], code + "0", code[::-1], "", code.lower(), " " + code, cc + code])
+        for c2 in (cc, "XX", "", cc.lower()):
+            yield Case("corr", "candidates", [enc(c2), enc(mut)], "unlisted", True)
+            yield Case("corr", "from_bank_code", [enc(c2), enc(mut)], "unlisted", True)
+    bs = bics if not ctx.quick else rng.sample(bics, 300)
+    for b in bs + ["GENODEM1XXX", "", "AAAADEFFXXX"]:
+        yield Case("corr", "bic_domestic", [enc(b)], "reverse", True)
+        yield Case("corr", "bic_names", [enc(b)], "reverse-names", True, "names:name")
+        yield Case("corr", "bic_short_names", [enc(b)], "reverse-names", True, "names:short")
+    # IBAN-level lookups around listed and unlisted bank codes
+    for cc, code in (keys if not ctx.quick else rng.sample(keys, 300)):
+        b = bban_around(ctx, cc, code)
+        if b is not None:
+            yield Case("corr", "iban_bank_lookup", [enc(cc), enc(b)], "iban-lookup", True)
+    for cc in countries(ctx):
+        yield Case("corr", "iban_bank_lookup", [enc(cc), enc(random_bban(ctx, cc))], "iban-lookup-random", True)
+
+
+def c17_streams(ctx):
+    rng = ctx.rng
+    banks = ctx.facts["banks"]
+    for cc in countries(ctx):
+        yield Case("prop", "spec_wf_country", [enc(cc)], "wf-country", True)
+    for i in range(len(banks)):
+        yield Case("prop", "spec_wf_bank", [str(i)], "wf-bank", True)
+    yield Case("corr", "n_banks", [], "bank-list", True)
+    # every listed bank can occur in a valid IBAN and is found again from it
+    for i in (range(len(banks)) if not ctx.quick else rng.sample(range(len(banks)), 800)):
+        cc, code, _bic = banks[i]
+        if not code:
+            continue
+        b = bban_around(ctx, cc, code)
+        if b is None:
+            yield Case("prop", "spec_wf_bank", [str(-1 - i)], "bank-does-not-fit", True)   # reported as a violation
+        else:
+            yield Case("prop", "iban_bank_lookup", [enc(cc), enc(b)], "reachable", True)
+
+
+# ------------------------------------------------------------------------------------------------
 # known findings
 
 def match_known(v: dict, known: list):
@@ -480,6 +689,26 @@ PREDICATES = {}
 
 
 REGISTRY = {
+    "C12": {
+        "streams": c12_streams,
+        "rule": "registry keys (country, bank code) - all 22 753 in thorough, 500 in quick - through candidates_from_bank_code "
+                "and from_bank_code; unlisted/mutated pairs; BICs of the registry through domestic_bank_codes / exists / "
+                "bank_names / bank_short_names (names compared through entry ids); an IBAN built around each key through "
+                "iban.bank / bic / bank_name / bank_short_name; implementation vs extracted model",
+    },
+    "C17": {
+        "streams": c17_streams,
+        "rule": "every country row and every bank entry against the extracted Spec/RegistrySpec.v predicates (a false one is "
+                "reported with the entry index); the effective bank list entry by entry vs the translated list; an IBAN built "
+                "around each bank entry (all in thorough, 800 in quick) must be valid and lead back to the first entry with that key",
+    },
+    "C18": {
+        "streams": c18_streams,
+        "rule": "random nested dict pairs with conflicting/disjoint keys and dict-vs-scalar clashes through registry.merge_dicts "
+                "(inputs deep-compared before/after) vs the model; random and malformed v2 documents through parse_v2; the real "
+                "registry.get run on scratch directories (random dict/list/v2 file sets incl. names that sort differently by case, "
+                "non-.json files) and on the tree's own iban/bank registry files, plus a user overlay; results compared modulo dict order",
+    },
     "C10": {
         "streams": c10_streams,
         "rule": "random Unicode texts (all \\s code points, special-casing letters, non-ASCII digits) through clean() vs the model; "
